@@ -7,9 +7,9 @@ CONSTANTS
   Shapes = {"longTail", "longHead"}
   MaxShape = 1
   ShapeWithCorr = FALSE
-  MaxOps = 0
-  OpKinds = {}
+  MaxOps = 1
+  OpKinds = {"validate"}
   Origins = {"loaded"}
   TweakChoice = {"plain", "tweaked"}
-INVARIANT NeverInvalidBelowTop
+INVARIANT NeverValidTwice
 CHECK_DEADLOCK FALSE
